@@ -105,7 +105,13 @@ def handle_path_command(args: argparse.Namespace) -> None:  # noqa: PLR0912, D10
     else:
         # Remove surrounding JSONPath blank space only. Other Unicode white space
         # is not insignificant in a query.
-        query = args.query_file.read().strip(" \t\r\n")
+        try:
+            query = args.query_file.read().strip(" \t\r\n")
+        except UnicodeDecodeError as err:
+            if args.debug:
+                raise
+            sys.stderr.write(f"query file unicode decode error: {err}\n")
+            sys.exit(1)
 
     try:
         path = jsonpath.JSONPathEnvironment().compile(query)
